@@ -136,6 +136,7 @@ def cases(tier, seed):
     ns = 260 if tier == "quick" else 2600
     out = [{"id": "batch/%d" % i, "kind": "batch", "seed": [seed, 9, i], "cost": 2} for i in range(nb)]
     out += [{"id": "stream/%d" % i, "kind": "stream", "seed": [seed, 99, i], "cost": 3} for i in range(ns)]
+    out += [{"id": "boundary/%d" % i, "kind": "boundary", "seed": [seed, 999, i], "cost": 2} for i in range(nb // 3)]
     return out
 
 
@@ -143,14 +144,97 @@ def targets(tier):
     k = 1 if tier == "quick" else 10
     return {"batch_decisions": 1000 * k, "batch_drifts": 300 * k, "stream_decisions": 3000 * k, "stream_drifts": 200 * k,
             "stream_histories_with_interrupted_run": 30 * k, "bootstrap_blocks_parsed": 400 * k, "set_reference_calls": 40 * k,
-            "stream_above_bound_steps": 1000 * k, "stream_below_bound_steps": 1000 * k, "detector_plot_frames_checked": 200 * k}
+            "stream_above_bound_steps": 1000 * k, "stream_below_bound_steps": 1000 * k, "detector_plot_frames_checked": 200 * k, "boundary_decisions": 120 * k}
 
 
 def run_case(case, ctx):
     warnings.simplefilter("ignore")
     if case["kind"] == "batch":
         return run_batch(case, ctx)
+    if case["kind"] == "boundary":
+        return run_boundary(case, ctx)
     return run_stream(case, ctx)
+
+
+def run_boundary(case, ctx):
+    """boundary-seeking workload for KdqTreeBatch: once the reference is installed and the critical value known from the logged
+    bootstrap, test batches are *constructed* from reference points with per-leaf counts chosen so that their divergence lies as
+    close as possible above / below the critical value (plus exact ties where the counts allow) - the decisions there are what tells
+    `>` from `>=`, tolerance guards and other quantile conventions."""
+    rng = gen.rng_for(case["seed"])
+    kw = draw_common(rng)
+    kw["count_ubound"] = int(rng.choice([2, 3, 5, 10]))
+    d = int(rng.integers(1, 3))
+    n = int(rng.integers(12, 60))
+    ref = rng.normal(0, 1, size=(n, d))
+    key = case.get("seed_key", case["id"])
+    cmp_ = Cmp()
+    rounds = 0
+    with rngtap.Tap() as tap:
+        for rnd in range(2):
+            det = KdqTreeBatch(**kw)
+            np.random.seed(rngtap.seed_for(key, rnd, 0))
+            mark = tap.mark()
+            det.set_reference(ref.copy())
+            model = RefModel(ref, kw["count_ubound"], kw["cutpoint_proportion_lbound"])
+            if model.reconcile(det) or model.public or model.L < 2:
+                return
+            dists, err = model.check_bootstrap(tap.since(mark), kw["bootstrap_samples"], n)
+            if err:
+                if err.startswith("SCHEME"):
+                    ctx.mark_inconclusive(err)
+                else:
+                    ctx.violation("C09/batch/bootstrap", "boundary case: " + err, params=kw)
+                return
+            crit = critical(dists, kw["alpha"])
+            # candidate count vectors: random ones, and the halves of the logged bootstrap draws themselves (their divergences
+            # against the reference are the neighbourhood of the critical value)
+            members = [[i for i in range(n) if K.route(model.root, ref[i])[0] == l] for l in range(model.L)]
+            cands = []
+            for _ in range(400):
+                m = int(rng.integers(2, 3 * n))
+                c = rng.multinomial(m, rng.dirichlet(np.ones(model.L) * float(rng.choice([0.3, 1.0, 3.0]))))
+                cands.append(c)
+            scored = sorted(((float(scipy.stats.entropy(model.ref_dist, distn(c))) - crit, tuple(int(v) for v in c)) for c in cands), key=lambda t: abs(t[0]))
+            above = [t for t in scored if t[0] > 0][:2]
+            below = [t for t in scored if t[0] <= 0][:2]
+            for margin, c in above + below:
+                rows = []
+                for l, k_ in enumerate(c):
+                    src = members[l]
+                    if k_ and not src:
+                        rows = None
+                        break
+                    rows += [ref[src[j % len(src)]] for j in range(k_)]
+                if not rows or len(rows) < 2:
+                    continue
+                X = np.array(rows)
+                det2 = KdqTreeBatch(**kw)
+                np.random.seed(rngtap.seed_for(key, rnd, 0))
+                det2.set_reference(ref.copy())
+                np.random.seed(rngtap.seed_for(key, rnd, 1))
+                det2.update(X.copy())
+                div = float(scipy.stats.entropy(model.ref_dist, distn(np.array(c, dtype=float))))
+                cmp_.begin()
+                exp = "drift" if cmp_.gt(div, crit) else None
+                ctx.count("boundary_decisions")
+                if abs(margin) <= 1e-4 * max(crit, 1e-12):
+                    ctx.count("boundary_decisions_within_1e-4_of_critical")
+                if margin == 0:
+                    ctx.count("boundary_exact_ties")
+                if det2.drift_state != exp:
+                    if cmp_.near_indices():
+                        ctx.count("near_ties_adopted")
+                        continue
+                    ctx.violation("C09/batch/decision_at_boundary",
+                                  "constructed batch with leaf counts %r: divergence %.15g, critical value %.15g (difference %.3g) => expected %r, drift_state %r" % (
+                                      list(c), div, crit, div - crit, exp, det2.drift_state), params=kw, reference=ref.tolist(), leaf_counts=list(c))
+                    return
+            rounds += 1
+            ref = rng.normal(0, 1, size=(n, d))
+    ctx.nontrivial = rounds >= 1
+    ctx.sample = {"kind": "boundary-seeking batches", "params": kw, "reference_rows": n, "rounds": rounds}
+    ctx.digest = "bd-%s-%s" % (sorted(kw.items()), case["seed"])
 
 
 def draw_common(rng):
